@@ -18,6 +18,26 @@ import (
 type c05Case struct {
 	G     *ref.G        `json:"g"`
 	Style *ref.WKTStyle `json:"style,omitempty"` // nil: the library's own encoder output
+	// Share: the tree handed to the encoder holds ONE object for all members that are equal
+	// (the same *Point, *GeometryCollection ... appears at several places of the tree).
+	Share bool `json:"share,omitempty"`
+}
+
+// sharedTree rebuilds a collection so that members with the same observable state are one object.
+func sharedTree(t geom.T, seen map[string]geom.T) geom.T {
+	if gc, ok := t.(*geom.GeometryCollection); ok && gc.NumGeoms() > 0 {
+		n := geom.NewGeometryCollection().SetSRID(gc.SRID())
+		for _, m := range gc.Geoms() {
+			n.MustPush(sharedTree(m, seen))
+		}
+		t = n
+	}
+	k := stateKey(t)
+	if old, ok := seen[k]; ok {
+		return old
+	}
+	seen[k] = t
+	return t
 }
 
 func init() {
@@ -111,17 +131,7 @@ func wktCorpus(level int) []*ref.G {
 			out = append(out, dg)
 		}
 		// collections
-		members := []*ref.G{
-			ref.NewPoint(l, true, ref.CounterFrom(10)),
-			ref.NewPoint(l, false, ref.Counter()),
-			ref.NewLine(ref.LineString, l, 2, ref.CounterFrom(20)),
-			ref.NewLine(ref.LineString, l, 0, ref.Counter()),
-			{Kind: ref.Polygon, Layout: l, C2: wktPolygon(l, []int{4}, ref.CounterFrom(30))},
-			ref.NewMultiPoint(l, []int{0, 1}, ref.CounterFrom(50)),
-			ref.NewParts(ref.MultiLineString, l, []int{0, 2}, ref.CounterFrom(60)),
-			{Kind: ref.MultiPolygon, Layout: l, C3: [][][]ref.C{{}, wktPolygon(l, []int{4}, ref.CounterFrom(70))}},
-			ref.NewCollection(l),
-		}
+		members := wktCollectionMembers(l)
 		idx := make([]int, len(members))
 		for i := range idx {
 			idx[i] = i
@@ -148,6 +158,21 @@ func wktCorpus(level int) []*ref.G {
 		}
 	}
 	return out
+}
+
+// wktCollectionMembers is the member menu of the collection families.
+func wktCollectionMembers(l geom.Layout) []*ref.G {
+	return []*ref.G{
+		ref.NewPoint(l, true, ref.CounterFrom(10)),
+		ref.NewPoint(l, false, ref.Counter()),
+		ref.NewLine(ref.LineString, l, 2, ref.CounterFrom(20)),
+		ref.NewLine(ref.LineString, l, 0, ref.Counter()),
+		{Kind: ref.Polygon, Layout: l, C2: wktPolygon(l, []int{4}, ref.CounterFrom(30))},
+		ref.NewMultiPoint(l, []int{0, 1}, ref.CounterFrom(50)),
+		ref.NewParts(ref.MultiLineString, l, []int{0, 2}, ref.CounterFrom(60)),
+		{Kind: ref.MultiPolygon, Layout: l, C3: [][][]ref.C{{}, wktPolygon(l, []int{4}, ref.CounterFrom(70))}},
+		ref.NewCollection(l),
+	}
 }
 
 // fixAll marks every collection of a model as having the fixed layout l (what the WKT parser produces).
@@ -211,6 +236,9 @@ func c05Exec(c *engine.Ctx, cs c05Case) {
 	var text string
 	if cs.Style == nil {
 		t := g.MustBuild()
+		if cs.Share {
+			t = sharedTree(t, map[string]geom.T{})
+		}
 		var err error
 		failWKT(-1) // two-call history: a failed encode first (see poison.go)
 		if p, _ := engine.Guard(func() { text, err = wkt.Marshal(t) }); p != nil {
@@ -281,13 +309,30 @@ func c05Run(c *engine.Ctx) {
 	}
 	corpus := wktCorpus(level)
 	c.Note("corpus", len(corpus))
-	styles := ref.AllWKTStyles()
+	styles := append(ref.AllWKTStyles(), ref.OneSpaceWKTStyles()...)
 	c.Note("spellings", len(styles))
 	c.Parallel(len(corpus), func(i int) {
 		g := corpus[i]
 		c05Exec(c, c05Case{G: g})
 		for si := range styles {
 			c05Exec(c, c05Case{G: g, Style: &styles[si]})
+		}
+	})
+	// trees in which one object stands at several places: the same member twice side by side, once
+	// beside and once inside a nested collection, inside two different nested collections
+	c.Parallel(len(ref.Layouts4), func(li int) {
+		l := ref.Layouts4[li]
+		for _, m := range wktCollectionMembers(l) {
+			in := func() *ref.G { return ref.NewCollection(l, m.Clone()) }
+			for _, g := range []*ref.G{
+				ref.NewCollection(l, m.Clone(), m.Clone()),
+				ref.NewCollection(l, m.Clone(), in()),
+				ref.NewCollection(l, in(), in()),
+				ref.NewCollection(l, in(), m.Clone(), ref.NewCollection(l, in())),
+			} {
+				c.Count("shared_object_trees", 1)
+				c05Exec(c, c05Case{G: g, Share: true})
+			}
 		}
 	})
 	// float lattice: values placed in XYZM points (4 per point) and as closing ordinates of a ring
